@@ -280,9 +280,10 @@ func c05RandCmd(r *Rng) c05Cmd {
 
 // c05LastCrowd: the stock query whose words the last generated database has a crowd of entries for ("" if none)
 var c05LastCrowd string
+var c05LastBig bool
 
 func c05GenDB(r *Rng, tier string) []c05Cmd {
-	c05LastCrowd = ""
+	c05LastCrowd, c05LastBig = "", false
 	var db []c05Cmd
 	for _, c := range c05Core {
 		if r.Chance(4, 5) {
@@ -306,7 +307,11 @@ func c05GenDB(r *Rng, tier string) []c05Cmd {
 		cq := Pick(r, c05Queries[:8])
 		c05LastCrowd = cq
 		w := strings.Fields(cq)
-		for i, m := 0, r.Range(12, 22); i < m; i++ {
+		m := r.Range(12, 22)
+		if c05LastBig = r.Chance(1, 3); c05LastBig {
+			m = r.Range(105, 140) // more matches than any limit the CLI accepts: answers longer than 100 results
+		}
+		for i := 0; i < m; i++ {
 			c := c05RandCmd(r)
 			c.Description = strings.Join(w, " ") + " " + c.Description
 			c.Plat = nil
@@ -654,7 +659,12 @@ func c05GenCacheLayer(r *Rng, tier string, idx int, args map[string]string) []st
 		// answers for different limits are not prefixes of one another, so no entry may serve two of them
 		o := c05BaseOpts(r, nan)
 		o.UseNLP, o.UseFuzzy, o.PipelineOnly, o.AllPlatforms, o.TopTermsCap = true, false, false, true, 0
-		for _, l := range [][]int{{10, 1, 3, 2, 10, 1}, {5, 2, 1, 0, 3}, {0, 1, 2, 10, 3}}[r.Intn(3)] {
+		ladders := [][]int{{10, 1, 3, 2, 10, 1}, {5, 2, 1, 0, 3}, {0, 1, 2, 10, 3}}
+		if c05LastBig {
+			o.UseNLP = r.Bool()
+			ladders = [][]int{{120, 120, 100, 120}, {1000, 150, 1000, 101, 101}, {130, 10, 130, 130}}
+		}
+		for _, l := range ladders[r.Intn(3)] {
 			o.Limit = l
 			ops = append(ops, c05SearchOp(r, "search", cq, o))
 		}
